@@ -56,7 +56,7 @@ class SerDomain(ExactCollections, Domain):
             return FuncRef(name)
         if name in self.module.assigns:
             try:
-                return Const(fold(self.module.assigns[name], self.module))
+                return Const(self.module.const(name))
             except NotConst:
                 # not a literal constant (e.g. a dispatch table that mentions functions): evaluate the display
                 expr = self.module.assigns[name]
@@ -436,7 +436,7 @@ class CompDomain(Domain):
             return state.get(name)
         if name in self.module.assigns:
             try:
-                return Const(fold(self.module.assigns[name], self.module))
+                return Const(self.module.const(name))
             except NotConst:
                 return TOP
         return TOP
